@@ -14,6 +14,7 @@ CONSTANTS
   MaxOld = 0
   Transports <- TrIP
   ScmpTypes <- ScmpNone
+  HdrStates <- HdrAll
 VIEW viewU
 INVARIANTS SentLeavesPool FieldCount PlaceholderType ReqFits ReqFitsConst NoShrink PoolCap StaysFull RespFits RespCount ProbeAnswered FreshCookiesOpen
 PROPERTIES SingleUse Answered Fresh
